@@ -270,6 +270,7 @@ var c04Corpus = []c04Pinned{
 	{name: "cue-self-referential-field", format: "cue", langs: []string{"go"}, text: "#a: #A & {x: 1}\n#A: {x: #A.x}\n"},
 	{name: "cue-recursive-array", format: "cue", langs: []string{"go"}, text: "container: {\n    m: {[string]: #A}\n    n: int\n}\n\n#A: [...#A]\n"},
 	{name: "openapi-self-anyof-validated", format: "openapi", validate: true, text: c04OA + `{"Array":{"type":"array","items":{"type":"string"},"default":["anything"],"discriminator":{"propertyName":"type"},"anyOf":[{"type":"string"},{"$ref":"#/components/schemas/Array"},{"type":"array","items":{"type":"integer"}}]}}}}`},
+	{name: "openapi-enum-array-member", format: "openapi", langs: []string{"typescript"}, text: c04OA + `{"Refs":{"type":"object","required":["ref"],"properties":{"ref":{"$ref":"#/components/schemas/Test"}}},"Test":{"type":"string","enum":[["x"]]}}}}`},
 	{name: "openapi-empty-enum", format: "openapi", text: c04OA + `{"E":{"type":"string","enum":[]},"S":{"type":"object","properties":{"e":{"$ref":"#/components/schemas/E"}}}}}}`},
 	{name: "openapi-empty-oneof", format: "openapi", text: c04OA + `{"U":{"oneOf":[]},"S":{"type":"object","properties":{"u":{"$ref":"#/components/schemas/U"}}}}}}`},
 	{name: "jsonschema-recursive-union", format: "jsonschema", text: `{"$schema":"http://json-schema.org/draft-07/schema#","definitions":{"X":{"oneOf":[{"$ref":"#/definitions/X"},{"type":"string","const":"a"}]}},"type":"object","properties":{"x":{"$ref":"#/definitions/X"}}}`},
